@@ -38,7 +38,14 @@ fn main() {
     };
     let replay = replay_case.is_some();
     let run_once = |rc: Option<String>| {
-        let mut ctx = Ctx::new(sid, tier, seed, rc);
+        // checks whose complete (thorough) lattice takes well under a minute enumerate it in the quick tier as well
+        const FAST: [&str; 14] = ["C02", "C03", "C04", "C06", "C07", "C08", "C09", "C10", "C12", "C13", "C14", "C15", "C16", "C20"];
+        let lattice = if tier == engine::Tier::Quick && FAST.contains(&sid) && std::env::var("FVC_SMALL_QUICK").is_err() { engine::Tier::Thorough } else { tier };
+        let mut ctx = Ctx::new(sid, lattice, seed, rc);
+        ctx.label = tier;
+        if lattice != tier {
+            ctx.extra("quick_enumerates_the_thorough_lattice", serde_json::json!(true));
+        }
         f(&mut ctx);
         ctx
     };
